@@ -64,6 +64,13 @@ BUILT: dict[str, dict[str, str]] = {
         note="fakeredis for Redis; the hook is a plain BaseJournalBackend wrapper. Thread-level interleavings inside one JournalStorage are C03's subject.",
         ref="DESIGN.md 3/C06",
     ),
+    "C14": dict(
+        technique="property-based testing (Hypothesis): generated finite define-by-run programs (conditional trees, shared sub-programs, failing/pruned leaves) and grids, split / interrupted / resumed runs on four backends; oracle = multiset of evaluated parameter dicts equals the set of leaf paths exactly once and optimize() stops by itself",
+        category="exploration",
+        text="Generated-program search with a validity oracle (exactly-once coverage + self-termination under a cap) over program shape, digit patterns of stepped floats, seeds, avoid_premature_stop, split points, interruption points and backends. One recorded finding (gRPC proxy loses parameter order) is carved out for multi-parameter paths only.",
+        note="Sequential runs on fresh studies; failures/prunes at leaves only (documented limitation of the sampler).",
+        ref="DESIGN.md 3/C14",
+    ),
 }
 
 NOT_YET: dict[str, str] = {}
